@@ -99,7 +99,11 @@ pub fn params() -> Vec<(&'static str, &'static str, Vec<RData>)> {
     ]
 }
 
-const ATOMS: [&str; 18] = ["i", "b", "bs", "d", "xs", "o", "p", "q", "t", "ds", "r", "od", "m", "0", "True", "#\"00\"", "None", "[]"];
+const ATOMS: [&str; 20] = ["i", "b", "bs", "d", "xs", "o", "p", "q", "t", "ds", "r", "od", "m", "0", "True", "#\"00\"", "None", "[]", G1_LIT, G2_LIT];
+
+/// the generators of the two BLS12-381 groups, as literals (operands of their own types)
+const G1_LIT: &str = "#<Bls12_381, G1>\"97f1d3a73197d7942695638c4fa9ac0fc3688c4f9774b905a14e3a3f171bac586c55e83ff97a1aeffb3af00adb22c6bb\"";
+const G2_LIT: &str = "#<Bls12_381, G2>\"93e02b6052719f607dacd3a088274f65596bd0d09920b61ab5da61bbdc7f5049334cf11213945d57e5ac7d055d042b7e024aa2b2f08f0a91260805272dc51051c6e47ad4fa403b02b4510b647ae3d1770bac0326a805bbefd48056c8c121bdb8\"";
 
 const CAST_TYPES: [&str; 13] = [
     "Data",
@@ -196,6 +200,7 @@ pub fn binary_forms() -> Vec<(&'static str, &'static str)> {
     vec![
         ("@1 + @2", "operator"),
         ("@1 == @2", "operator"),
+        ("@1 != @2", "operator"),
         ("@1 < @2", "operator"),
         ("@1 && @2", "operator"),
         ("[@1, @2]", "constructor"),
